@@ -172,6 +172,20 @@ def EnvOk : St → List Ev → Prop
   | _, [] => True
   | s, e :: rest => evOk s e = true ∧ EnvOk (step s e).1 rest
 
+/-- `EnvOk` as a Boolean function of the input. -/
+def envOk : St → List Ev → Bool
+  | _, [] => true
+  | s, e :: rest => evOk s e && envOk (step s e).1 rest
+
+theorem envOk_EnvOk : ∀ (evs : List Ev) (s : St), envOk s evs = true → EnvOk s evs := by
+  intro evs
+  induction evs with
+  | nil => intro s _; trivial
+  | cons e rest ih =>
+    intro s h
+    simp only [envOk, Bool.and_eq_true] at h
+    exact ⟨h.1, ih _ h.2⟩
+
 /-- No remote is linked to a lane id that has not been assigned yet. -/
 def NoUnreg (s : St) : Prop := ∀ id, s.reg.length ≤ id → s.links.linkedFrom id = []
 
